@@ -415,7 +415,6 @@ fn run_history(ops: &[Op], n_names: usize, no_forged: bool) -> HistResult {
     if w.hit_horizon {
         out.machinery = Some("pump did not reach quiescence".into());
     }
-    drop(do_release);
     drop(conn);
     out
 }
